@@ -235,6 +235,56 @@ func dispatch(job Job) *JobRes {
 		return seqJob(job)
 	case "crash":
 		return crashJob(job)
+	case "probe04":
+		return probeC04()
+	case "hostile":
+		r := runHostile(job.Seed, job.Case, job.Tier)
+		out := &JobRes{Viol: r.Viol, Evals: r.Requests, Counters: Counter{"requests": r.Requests, "fuzzed_frames": r.Fuzzed, "canary_checks": r.Canaries, "distinct_reply_statuses": len(r.Statuses)}, Distinct: sortedKeys(r.Keys)}
+		for _, x := range r.Sample {
+			out.Samples = append(out.Samples, x)
+		}
+		return out
+	case "simple":
+		mon.Off()
+		r := runSimple(job.Seed, job.Case, job.Tier)
+		out := &JobRes{Viol: r.Viol, Evals: r.Ops + r.Images, Counters: Counter{"requests": r.Ops, "histories": r.Histories, "per_inode_partitions_checked": r.Partitions, "crash_images": r.Images, "crash_images_with_request_in_flight": r.InFlight}, Distinct: sortedKeys(r.Keys)}
+		out.Samples = []interface{}{r.Sample}
+		return out
+	case "kvs":
+		mon.Off()
+		r := runKvs(job.Seed, job.Case, job.Tier)
+		out := &JobRes{Viol: r.Viol, Evals: r.Ops + r.Images, Counters: Counter{"puts_and_gets": r.Ops, "histories": r.Histories, "histories_with_overlapping_concurrent_multiputs": r.Overlap, "crash_images": r.Images, "crash_images_with_operation_in_flight": r.InFlight}}
+		for k := range r.Keys {
+			out.Distinct = append(out.Distinct, k)
+		}
+		if r.InFlight > 0 {
+			out.Distinct = append(out.Distinct, fmt.Sprintf("inflight-images-%d", minInt(r.InFlight, 3)), fmt.Sprintf("overlap-%d", minInt(r.Overlap, 3)))
+		}
+		out.Samples = []interface{}{r.Sample}
+		return out
+	case "xdr":
+		mon.Off()
+		childLog("xdr seed=%d case=%d", job.Seed, job.Case)
+		r := runXdr(job.Seed, job.Case, job.N)
+		out := &JobRes{Viol: r.Viol, Evals: r.Values, Counters: Counter{"values_encoded": r.Values, "byte_strings_offered_to_decoders": r.Bytes, "types_covered": len(r.Types), "types_in_registry": len(xdrRegistry), "hand_vectors": r.Vectors, "procedure_numbers_dispatched": r.Procs}, Distinct: sortedKeys(r.Arms)}
+		if len(r.Types) != len(xdrRegistry) && len(r.Viol) == 0 {
+			out.Viol = append(out.Viol, Violation{Class: "harness", Msg: fmt.Sprintf("only %d of %d types were exercised", len(r.Types), len(xdrRegistry))})
+		}
+		for _, sm := range r.Sample {
+			out.Samples = append(out.Samples, sm)
+		}
+		out.Known = r.Known
+		return out
+	case "sizes":
+		mon.Off()
+		var from, to uint64
+		var fe int
+		fmt.Sscan(job.Args["from"], &from)
+		fmt.Sscan(job.Args["to"], &to)
+		fmt.Sscan(job.Args["fill"], &fe)
+		r := runSizes(from, to, fe, job.Seed)
+		out := &JobRes{Viol: r.Viol, Evals: r.Checked, Counters: Counter{"sizes_checked": r.Checked, "sizes_filled_completely": r.Filled, "sizes_rejected": r.Rejected}, Distinct: sortedKeys(r.Combos), Samples: r.Sample}
+		return out
 	case "census":
 		childLog("census seed=%d case=%d", job.Seed, job.Case)
 		return censusJobRes(runCensus(job.Seed, job.Case, job.Tier))
@@ -359,7 +409,10 @@ func propSpecs() map[string]PropSpec {
 		Assume: []string{"reference model conventions of DESIGN.md §2.2", "open known findings are avoided by the generators (KNOWN_FINDINGS.txt)"}})
 	add(PropSpec{ID: "C04", Level: "exploration", Classes: []string{"fsck", "crash"},
 		Rule: "fsck of the logical disk (repository's own decoders) after every operation of seeded sequences, after concurrent histories and on crash images; distinct = distinct (owned-block-set, tree) hashes of states that have an indirect block or a nested directory",
-		Plan: withConc(withCrash(seqPlan("C04", 32, 600), "C04", 4, 60), "C04", 12, 200, false)})
+		Plan: func(tier string, seed uint64) []Job {
+			js := withConc(withCrash(seqPlan("C04", 32, 600), "C04", 4, 60), "C04", 12, 200, false)(tier, seed)
+			return append(js, Job{Engine: "probe04", Profile: "C04", Seed: seed})
+		}})
 	add(PropSpec{ID: "C05", Level: "exploration", Classes: []string{"leak", "crash"},
 		Rule: "build-then-delete sequences; conservation (marked = reachable, allocators = bitmaps, no half-freed inode) at shrinker-idle quiescence every 6 ops, after restarts, and after deleting everything; distinct = distinct on-disk state hashes checked",
 		Plan: withConc(withCrash(seqPlan("C05", 32, 600), "C05", 4, 60), "C05", 12, 200, false)})
@@ -402,6 +455,88 @@ func propSpecs() map[string]PropSpec {
 		Rule: "the harness is built with -race (which also instruments /repo and GoJournal) and runs the conflicting concurrent histories of C03 (same names, same files, shrinker active, READDIRPLUS during updates, restarts, direct and rpc adapters) with the lock monitor and seeded yields on; every report of the race detector with a repository or GoJournal frame is a violation (de-duplicated by the pair of first repository frames); distinct = distinct interleaving fingerprints, counted only when locks were contended",
 		Plan: withConc(noJobs, "C14", 16, 200, true),
 		Assume: []string{"the race detector only observes the interleavings that were executed", "GORACE=halt_on_error=0: reports are collected from the log files, exit codes are not trusted"}})
+	add(PropSpec{ID: "C15", Level: "exploration", Classes: []string{"size", "crash"},
+		Rule: "EXHAUSTIVE over the stated ranges: every disk size from the smallest one MakeNfs accepts (found by trying downwards) for 400 (thorough: 3000) consecutive sizes and every size within +-40 of 32768*k (k=1,2,3) is formatted by the real MakeNfs; per size: regions ordered/disjoint/inside the disk, fresh bitmaps mark exactly the non-data blocks + the root directory and inodes 0,1, allocators agree, root usable; sampled sizes (thorough: all of the dense range) are filled to NOSPC (free must reach 0, every data block owned once, none outside) and emptied again (free = initial); distinct = distinct (bitmap blocks, size mod 8, position relative to 32768) classes",
+		Plan: func(tier string, seed uint64) []Job {
+			min := findMinSize()
+			n, fill, wfill := uint64(400), 8, 0
+			if tier == "thorough" {
+				n, fill, wfill = 3000, 1, 8
+			}
+			var js []Job
+			mk := func(from, to uint64, fe int) {
+				js = append(js, Job{Engine: "sizes", Profile: "C15", Seed: seed, Case: len(js), Args: map[string]string{"from": fmt.Sprint(from), "to": fmt.Sprint(to), "fill": fmt.Sprint(fe)}})
+			}
+			// also the sizes just below the minimum: they must be rejected, not half-accepted
+			mk(min-3, min, 0)
+			for a := min; a < min+n; a += 25 {
+				mk(a, minU64(a+25, min+n), fill)
+			}
+			for k := uint64(1); k <= 3; k++ {
+				for a := 32768*k - 40; a < 32768*k+41; a += 9 {
+					fe := wfill
+					if tier != "thorough" && k == 1 && a == 32768-40+36 {
+						fe = 9
+					}
+					mk(a, minU64(a+9, 32768*k+41), fe)
+				}
+			}
+			return js
+		},
+		Assume: []string{"'accepted' = MakeNfs on a blank disk of that size returns without panicking", "at most two blocks may remain unusable when NOSPC is first reported (a data block in a new indirect range needs its index blocks too)"}})
+	add(PropSpec{ID: "C16", Level: "exploration", Classes: []string{"xdr", "crash", "harness"},
+		Rule: "for every exported nfstypes type with an Xdr method (registry regenerated from /repo/nfstypes/nfs_xdr.go at build time): values generated by reflection (every union discriminant from a pool incl. illegal ones, optional/list shapes 0/1/many, lengths 0/1/3/4/63/64/65/255/256/1000) are encoded by nfstypes and by go-rpcgen's rfc1813 (generated from the RFC's .x file) and must give the same bytes / the same error; decode(encode(v)) re-encodes identically and equals the RFC decoder's value; truncated encodings must be rejected; mutated and random byte strings must be accepted/rejected alike with equal values; 16 hand-derived RFC 1813 byte vectors; all 22+6 procedure numbers (and unknown ones) sent with RFC-encoded arguments through rfc1057 to a recording handler registered like cmd/go-nfsd does; distinct = distinct (type, discriminant/optional shape) combinations",
+		Plan: func(tier string, seed uint64) []Job {
+			n, it := 8, 60
+			if tier == "thorough" {
+				n, it = 64, 400
+			}
+			var js []Job
+			for i := 0; i < n; i++ {
+				js = append(js, Job{Engine: "xdr", Profile: "C16", Seed: seed, Case: i, N: it})
+			}
+			return js
+		},
+		Assume: []string{"go-rpcgen's rfc1813 package is an independent rendering of the RFC's XDR description (same generator: hand-derived vectors guard the shared part)"}})
+	add(PropSpec{ID: "C17", Level: "fault_enumeration", Classes: []string{"simple", "crash"},
+		Rule: "simple.Nfs against the specification '30 files (inodes 2..31) of at most 4096 bytes': boundary-dense sequential requests (valid/invalid inode numbers, short handles, offsets 0..2^64-1, counts, count != data length, sizes) through direct and rpc adapters; EVERY prefix cut and one lossy image per cut of the disk trace recovered with simple.Recover must equal a state between the last acknowledged and the last issued request; concurrent histories (3-4 clients on few inodes) checked by porcupine, partitioned per inode; distinct = distinct (procedure, outcome, argument class) triples",
+		Plan: func(tier string, seed uint64) []Job {
+			n := 8
+			if tier == "thorough" {
+				n = 80
+			}
+			var js []Job
+			for i := 0; i < n; i++ {
+				js = append(js, Job{Engine: "simple", Profile: "C17", Seed: seed, Case: i})
+			}
+			return js
+		}})
+	add(PropSpec{ID: "C18", Level: "fault_enumeration", Classes: []string{"kvs", "crash"},
+		Rule: "kvs.KVS with values carrying unique ids: sequential MultiPut/Get over a key set that includes both ends of the valid range (out-of-range keys must be refused); EVERY prefix cut and one lossy image per cut of the disk trace recovered by MkKVS must equal the model after a prefix between the last acknowledged and the last issued operation (multi-put all-or-nothing); concurrent overlapping multi-puts and gets checked by porcupine; distinct = distinct operation shapes plus images-in-flight/overlap classes",
+		Plan: func(tier string, seed uint64) []Job {
+			n := 8
+			if tier == "thorough" {
+				n = 80
+			}
+			var js []Job
+			for i := 0; i < n; i++ {
+				js = append(js, Job{Engine: "kvs", Profile: "C18", Seed: seed, Case: i})
+			}
+			return js
+		}})
+	add(PropSpec{ID: "C11", Level: "exploration", Classes: []string{"crash", "hang", "canary", "deadlock"},
+		Rule: "structured hostile argument generation for all 22 NFS and 6 MOUNT procedures of nfs.Nfs (direct and rpc adapters) and of simple.Nfs: handles of length 0-64 with arbitrary bytes / valid number and any generation / numbers at the table ends, names of length 0..70000 incl. '.', '..', NUL, offsets/counts/sizes/cookies from boundary pools up to 2^64-1, counts that disagree with the data supplied, every enumeration value incl. illegal ones; in five file-system states (empty, deep, nearly full, shrinking, cold caches); plus byte-level mutation of well-formed framed RPC calls sent to an rfc1057 server registered like cmd/go-nfsd; every request is logged before it is sent, the child must survive (ulimit -v 8 GiB), answer (watchdog + lock monitor) and pass the canary (GETATTR root, create/write/read/remove, fsck) afterwards; distinct = distinct (procedure, handle-length class, argument class) combinations",
+		Plan: func(tier string, seed uint64) []Job {
+			n := 10
+			if tier == "thorough" {
+				n = 100
+			}
+			var js []Job
+			for i := 0; i < n; i++ {
+				js = append(js, Job{Engine: "hostile", Profile: "C11", Seed: seed, Case: i})
+			}
+			return js
+		}})
 	add(PropSpec{ID: "C13", Level: "exploration", Classes: []string{"enum", "crash"},
 		Rule: "page-by-page enumerations (READDIR and READDIRPLUS) of directories of 10 shapes (empty ... multi-block, freed slots, long names) with every count/dircount/maxcount class, resumption from every cookie previously returned, adds/removes between pages and a concurrent mutator; distinct = distinct (shape, procedure, count class, dircount class) combinations in runs with >= 1 multi-page enumeration",
 		Plan: func(tier string, seed uint64) []Job {
